@@ -188,7 +188,8 @@ def check_string(ctx, s, idx, rng, drive=False):
                         one = f'raised {type(e).__name__}'
                     if one is not True and not s.endswith('\n'):
                         ctx.disagree(f'{api}: one-shot match of s against escape(s) is {one}',
-                                     {'api': api, 's': s, 'pattern': pat, 't': s, 'flags': list(fnames)})
+                                     {'api': api, 's': s, 'pattern': pat, 't': s, 'flags': list(fnames)},
+                                     classify(s, s, fnames, True, one))
             if any(c in '*?[](){}|!-~\\' for c in s):
                 ctx.mark_nontrivial(key)
     if idx % 1500 == 1:
